@@ -311,8 +311,17 @@ macro_rules! emit_long_h {
             }
             g.output.push(0xAA);
             g.output.push(0x55);
-            let mut data: [u8; $dlen] = kani::any();
+            // payload content is concrete (zeros): only lengths matter here, and a concrete payload keeps a 255-byte base
+            // tractable.  The mutator's entropy is symbolic wherever it would be read: right after a 31-byte payload
+            // (unchanged tree) and right after a 255-byte payload (should the length computation change).
+            let mut data = [0u8; $dlen];
             data[0] = $lead;
+            let w1: [u8; 16] = kani::any();
+            let w2: [u8; 16] = kani::any();
+            crate::vk_unroll!(i in [0, 1, 2, 3, 4, 5, 6, 7, 8, 9, 10, 11, 12, 13, 14, 15] {
+                if 32 + i < $dlen { data[32 + i] = w1[i]; }
+                if 256 + i < $dlen { data[256 + i] = w2[i]; }
+            });
             let mut u = Unstructured::new(&data);
             let mut src = GenerationSource::Arbitrary(&mut u);
             let r = g.emit_and_process(OpcodeKind::$op, &mut src);
@@ -323,11 +332,12 @@ macro_rules! emit_long_h {
         }
     };
 }
-// length byte 255: on the unchanged tree 255 % 32 = 31, the largest base payload; unwind and entropy are sized so that a
-// base payload of up to 255 bytes (should the length computation change) is still executed rather than cut off
-emit_long_h!(emit_short_binbytes_maxlen_stringlen, ShortBinBytes, I_SHORT_BINBYTES, 260, 255, 4, 272);
-emit_long_h!(emit_short_binstring_maxlen_stringlen, ShortBinString, I_SHORT_BINSTRING, 260, 255, 4, 272);
-emit_long_h!(emit_binbytes_maxlen_stringlen, BinBytes, I_BINBYTES, 260, 255, 4, 272);
-emit_long_h!(emit_short_binbytes_maxlen_none, ShortBinBytes, I_SHORT_BINBYTES, 260, 255, 0, 40);
+// length byte 255: on the unchanged tree 255 % 32 = 31, the largest base payload.  (Sizing unwind/entropy for a 255-byte
+// base — unwind 260 — did not finish in 40 min even on the unchanged tree; a base payload longer than 38 bytes therefore
+// shows up as an unwinding failure = inconclusive, not as a violation.)
+emit_long_h!(emit_short_binbytes_maxlen_stringlen, ShortBinBytes, I_SHORT_BINBYTES, 40, 255, 4, 64);
+emit_long_h!(emit_short_binstring_maxlen_stringlen, ShortBinString, I_SHORT_BINSTRING, 40, 255, 4, 64);
+emit_long_h!(emit_binbytes_maxlen_stringlen, BinBytes, I_BINBYTES, 40, 255, 4, 64);
+emit_long_h!(emit_short_binbytes_maxlen_none, ShortBinBytes, I_SHORT_BINBYTES, 40, 255, 0, 64);
 
 include!("gen_emit.rs");
